@@ -21,7 +21,7 @@ theorem do_measure (cfg : Cfg) (hc : cfg.code = doCode ∨ cfg.code = dcCode) :
     (∀ s l s', step cfg s l = some s' → M.phi cfg s' < M.phi cfg s) ∧
     M.phi cfg (init cfg) ≤ 4 * cfg.n + 2 * nW cfg + 2 ∧
     (nW cfg : Int) ≤ max 1 (reqPar cfg) := by
-  have hs := code_sound hc
+  have hs : cfg.code.Sound := by pardo_sound hc
   refine ⟨fun s l s' h => M.phi_decreases hs h, M.phi_init_le hs, ?_⟩
   unfold nW
   split
@@ -47,7 +47,7 @@ theorem do_steps_bounded (cfg : Cfg) (hc : cfg.code = doCode ∨ cfg.code = dcCo
     (∀ ls s, run cfg (init cfg) ls = some s → ls.length + M.phi cfg s ≤ 4 * cfg.n + 2 * nW cfg + 2) ∧
     (∀ s ls s', run cfg s ls = some s' → ls.length + M.phi cfg s' ≤ M.phi cfg s) ∧
     ¬ ∃ σ : Nat → St, ∀ n, ∃ l, step cfg (σ n) l = some (σ (n + 1)) := by
-  have hs := code_sound hc
+  have hs : cfg.code.Sound := by pardo_sound hc
   refine ⟨?_, fun s ls s' h => M.run_phi hs h, ?_⟩
   · intro ls s h
     have := M.run_phi hs h
@@ -80,7 +80,7 @@ theorem do_returns_when_calls_return (cfg : Cfg) (hc : cfg.code = doCode ∨ cfg
     (M.Quiescent cfg s → running s = 0 → s.ret.isSome = true) ∧
     (s.ret = none → (∃ l s', l.isEnv = false ∧ step cfg s l = some s') ∨ 0 < running s) ∧
     (running s = 0 → ∀ i, endedCount s i = begunCount s i) := by
-  have hs := code_sound hc
+  have hs : cfg.code.Sound := by pardo_sound hc
   have hp : s.ret = none → (∃ l s', l.isEnv = false ∧ step cfg s l = some s') ∨ 0 < running s := by
     intro hret
     rcases M.progress hs h hret with ⟨l, hl, hen⟩ | hr
@@ -121,7 +121,7 @@ theorem do_terminates (cfg : Cfg) (hc : cfg.code = doCode ∨ cfg.code = dcCode)
     (∀ ls s', run cfg s ls = some s' → M.Quiescent cfg s' → running s' = 0 → s'.ret.isSome = true) ∧
     (∃ ls s', (∀ l ∈ ls, l.isEnv = false ∨ ∃ w r, l = .fEnd w r) ∧ run cfg s ls = some s' ∧
       ls.length ≤ M.phi cfg s ∧ s'.ret.isSome = true) := by
-  have hs := code_sound hc
+  have hs : cfg.code.Sound := by pardo_sound hc
   refine ⟨fun ls s' hr => M.run_phi hs hr, ?_, ?_, ?_⟩
   · have hb := M.phi_init_le hs
     have : M.phi cfg s ≤ M.phi cfg (init cfg) := by
